@@ -929,7 +929,7 @@ func runC20(a *Args) error {
 	w.Assumptions = []string{
 		"what a plugin file prints for get-plugin-metadata is a function of its content (stub scripts print what is written in them; every content is run directly, its output decoded with encoding/json into the six metadata fields, and that is the table given to the model, which applies plugin.validate itself); plugin.ContractVersion of the framework is 1.0 (checked)",
 		"near-miss family: the expected outcome of every step is the one the property text fixes for strings that are not SemVer 2.0.0 versions; it is checked on the Go side (implementation-violation) and independently by the Coq oracle",
-		"the source of an installation is not modified concurrently; it may lie inside the plugin root (family places: own directory / executable, other plugins' directories and files, links), except for the two forms on which the unchanged code is known to change the root although it refuses (docs/audit/C20.md, C20_at_frame_refuted): a directory of the root whose only notation-* file is not executable, and a link named for a plugin into that plugin's own directory - these are not generated",
+		"the source of an installation is not modified concurrently; it may lie inside the plugin root (family places: own directory / executable, other plugins' directories and files, links), except a directory of the root whose only notation-* file is not executable: the documented chmod of a directory source then changes the root before anything is checked (docs/audit/C20.md, C20_at_frame_chmod_refuted) - not generated",
 		"the harness runs as a user for whom the files are readable; a file is executable by that user iff its owner-execute bit is set (modes are generated accordingly)",
 		"error classes of Install/Uninstall are recognised by errors.As / errors.Is and by the fixed message prefixes of manager.go",
 		"concurrency family: goroutines work on different plugin names; a history in which an exec inside Install hit ETXTBSY (a child forked by another goroutine still holding the descriptor of a freshly copied executable: fork/exec, not the manager) is dropped and counted; Get+GetMetadata of the harness retries on ETXTBSY",
